@@ -333,6 +333,69 @@ def string_lemmas():
     return obs
 
 
+# ------------------------------------------------------------------------------------- lemma: the shipped registrations pair inverse functions
+# (type, serializer, deserializer) of every module-level register_type / register_type_on_first_use statement of jsonargparse/typing.py, read from the AST on
+# every run. "Serialises losslessly" needs deserializer(serializer(v)) == v: each pair must be one whose inverse law is established - by a unit of this property
+# (range, bytes, bytearray, timedelta: contracts/r2_regtypes.py), or by the type itself (str(v) is the text its own constructor reads back: pathlib paths, complex,
+# UUID, SecretStr; trusted). Decimal through float is lossy: that is the known finding c20-decimal-through-float, reported by the harness; the registration is listed
+# here with that note only so that a *change* of it is seen.
+LOSSLESS_PAIRS = {
+    ("os.PathLike", "str", "str"): "the value is the text itself",
+    ("complex", None, None): "register_type defaults: str / the type; complex(str(z)) == z",
+    ("'uuid.UUID'", None, None): "register_type defaults: str / the type; UUID(str(u)) == u",
+    ("pathlib.Path", "str", "pathlib.Path"): "pathlib: Path(str(p)) == p for every path (str keeps every segment, '..' included)",
+    ("pathlib.PosixPath", "str", "pathlib.PosixPath"): "as pathlib.Path",
+    ("pathlib.WindowsPath", "str", "pathlib.WindowsPath"): "as pathlib.Path",
+    ("'datetime.timedelta'", None, "timedelta_deserializer"): "str(timedelta) read back by timedelta_deserializer (unit of this property)",
+    ("'builtins.bytes'", "bytes_serializer", "bytes_deserializer"): "base64 pair (unit of this property)",
+    ("'builtins.bytearray'", "bytes_serializer", "bytearray_deserializer"): "base64 pair (unit of this property)",
+    ("range", "range_serializer", "range_deserializer"): "inverse pair (unit of this property)",
+    ("SecretStr", None, None): "register_type defaults; SecretStr masks on purpose (its own units)",
+    ("'pydantic.SecretStr'", None, None): "as SecretStr",
+    ("'decimal.Decimal'", "float", None): "KNOWN FINDING c20-decimal-through-float (lossy); listed so that a *change* of this registration is seen",
+}
+
+
+def shipped_registrations():
+    import ast
+    import os as _os
+    from pyvc import REPO
+    tree = ast.parse(open(_os.path.join(REPO, "jsonargparse", "typing.py")).read())
+    out = []
+
+    def arg(call, pos, name):
+        for kw in call.keywords:
+            if kw.arg == name:
+                return ast.unparse(kw.value)
+        return ast.unparse(call.args[pos]) if len(call.args) > pos else None
+
+    def walk(body, subst):
+        for st in body:
+            if isinstance(st, ast.Expr) and isinstance(st.value, ast.Call) and getattr(st.value.func, "id", "") in ("register_type", "register_type_on_first_use"):
+                c = st.value
+                for sub in subst or [{}]:
+                    t = [sub.get(x, x) if x is not None else None for x in (arg(c, 0, "type_class" if c.func.id == "register_type" else "import_path"), arg(c, 1, "serializer"), arg(c, 2, "deserializer"))]
+                    out.append((st.lineno, tuple(t)))
+            elif isinstance(st, ast.For) and isinstance(st.target, ast.Name) and isinstance(st.iter, (ast.List, ast.Tuple)):
+                walk(st.body, [{st.target.id: ast.unparse(e)} for e in st.iter.elts])
+            elif isinstance(st, (ast.If, ast.With, ast.Try)):
+                walk(st.body, subst)
+    walk(tree.body, None)
+    return out
+
+
+def registration_lemmas():
+    regs = shipped_registrations()
+    obs = [make_ob("C20/lemma:registrations/the-shipped-registrations-are-found(at least the ten of the pinned tree)", "lemma", [], z3.BoolVal(len(regs) >= 10))]
+    for line, triple in regs:
+        obs.append(make_ob(f"C20/lemma:registrations/{triple[0]}:serializer-and-deserializer-are-a-pair-whose-inverse-law-is-established(got {triple[1]} / {triple[2]})", "lemma", [],
+                           z3.BoolVal(triple in LOSSLESS_PAIRS), line=line))
+    for want in LOSSLESS_PAIRS:
+        if not want[0].startswith("'pydantic"):
+            obs.append(make_ob(f"C20/lemma:registrations/{want[0]}-is-still-registered", "lemma", [], z3.BoolVal(any(t == want for _, t in regs) or any(t[0] == want[0] for _, t in regs))))
+    return obs
+
+
 SIZES = tuple(f"(assert (= ops.len!{k} {n}))" for k in (0,) for n in (0, 1, 2))
 
 UNITS = [
@@ -349,7 +412,8 @@ UNITS = [
     Unit("C20", "jsonargparse.typing:RegisteredType.deserializer", ds_setup, ds_post, ds_raises, expect_cover=("return", "raise:ValueError", "raise:KeyError")),
     Unit("C20", "jsonargparse.typing:SecretStr.__str__", ss_setup, ss_post, ss_raises, replayer="replayers.c20:replay_secret"),
 ]
-LEMMAS = [Lemma("C20/lemma:shipped-string-patterns", string_lemmas, replayer="replayers.c20:replay_pattern", trusted=["regex -> RegLan translation of pyvc/regex.py (cross-checked against re.match on samples)"])]
+LEMMAS = [Lemma("C20/lemma:shipped-registrations", registration_lemmas, trusted=["the inverse law of each listed pair: a unit of this property, or the type's own str()/constructor pair (pathlib, complex, UUID)"]),
+          Lemma("C20/lemma:shipped-string-patterns", string_lemmas, replayer="replayers.c20:replay_pattern", trusted=["regex -> RegLan translation of pyvc/regex.py (cross-checked against re.match on samples)"])]
 
 VERIFIED_CALLEES = ("cls._validation_fn",)
 LEVEL = "other"
